@@ -8,7 +8,7 @@ from hypothesis import strategies as st
 
 from vlib import model as M
 from vlib import strategies as S
-from vlib.runner import Unit, violation, call
+from vlib.runner import Unit, violation, call, Violation
 from vlib.repo import T, transform
 import itertools
 COUNTER = itertools.count()
@@ -46,6 +46,37 @@ def rootish(draw, max_tokens):
                           st.tuples(st.just("delete"), st.integers(0, 20)).map(list))
         case["pre"] = draw(st.lists(steps, min_size=1, max_size=3))
     return case
+
+
+@st.composite
+def scattered(draw, max_tokens):
+    """Root children built directly: the tokens 1..n are dealt out to 2..6 groups in any interleaving (crossing groups,
+    groups inside the gaps of several others); a group is a bare token, a flat constituent, or a constituent with one
+    inner constituent over some of its tokens."""
+    n = draw(st.integers(3, max_tokens))
+    k = draw(st.integers(2, min(6, n)))
+    owner = [draw(st.integers(0, k - 1)) for _ in range(n)]
+    words = st.sampled_from(["a", "b", ",", "."])
+
+    def tok(i):
+        return {"w": draw(words), "p": draw(st.sampled_from(["NN", "VB", "$,"])), "n": i + 1, "e": draw(st.sampled_from(["HD", "NK", "--"])), "lem": "--", "m": "--"}
+    children = []
+    for g in range(k):
+        members = [tok(i) for i in range(n) if owner[i] == g]
+        if not members:
+            continue
+        if len(members) == 1 and draw(st.booleans()):
+            children.append(members[0])
+            continue
+        node = {"l": draw(st.sampled_from(["S", "NP", "VP", "PP"])), "e": "--", "lem": "--", "m": "--", "c": members}
+        if len(members) >= 3 and draw(st.booleans()):
+            picked = [m for m in members if draw(st.booleans())]
+            if 1 <= len(picked) < len(members):
+                inner = {"l": draw(st.sampled_from(["NP", "AP"])), "e": "HD", "lem": "--", "m": "--", "c": picked}
+                node["c"] = [m for m in members if all(m is not q for q in picked)] + [inner]
+        children.append(node)
+    order = draw(st.permutations(list(range(len(children)))))
+    return {"sid": draw(st.integers(1, 50)), "root": {"l": "VROOT", "e": "--", "lem": "--", "m": "--", "c": [children[i] for i in order]}}
 
 
 def reference(root):
@@ -172,7 +203,81 @@ def gen(ctx):
     ctx.hyp(rootish(10 if quick else 14), body, max_examples=1500 if quick else 8000)
 
 
-UNITS = [Unit("root_attach_vs_reference", gen, check, shards=(4, 16))]
+def gen_scattered(ctx):
+    quick = ctx.tier == "quick"
+
+    def body(case):
+        moved = check(case)
+        root = case["root"]
+        crossing = sum(1 for a in root["c"] for b in root["c"] if a is not b and min(M.nums(a)) < min(M.nums(b)) < max(M.nums(a)) < max(M.nums(b)))
+        ctx.count(key=case["root"], nontrivial=moved > 0, classes=["scattered:moved=%d" % min(moved, 3), "scattered:crossing-pairs=%d" % min(crossing, 3),
+                                                                   "scattered:rootchildren=%d" % min(len(root["c"]), 6)])
+        if moved > 1 and crossing > 1:
+            ctx.sample({"tree": case["root"], "reattached": moved}, cap=2)
+    ctx.hyp(scattered(9 if quick else 12), body, max_examples=1500 if quick else 8000)
+
+
+def set_partitions(n):
+    """all partitions of 1..n as lists of blocks (restricted growth strings)"""
+    def rec(i, assign, top):
+        if i == n:
+            blocks = [[] for _ in range(top)]
+            for pos, g in enumerate(assign):
+                blocks[g].append(pos + 1)
+            yield blocks
+            return
+        for g in range(top + 1):
+            assign.append(g)
+            for out in rec(i + 1, assign, max(top, g + 1)):
+                yield out
+            assign.pop()
+    return rec(0, [], 0)
+
+
+def gen_partitions(ctx):
+    """EXHAUSTIVE: every way to deal the tokens 1..n out to root children (every set partition: all interleavings and
+    crossings of flat root children), singletons once as bare tokens and once as unary constituents"""
+    quick = ctx.tier == "quick"
+    top = 9 if quick else 11
+    index = 0
+    complete = True
+    for n in range(2, top + 1):
+        for blocks in set_partitions(n):
+            for unary in (False, True):
+                index += 1
+                if index % ctx.nshards != ctx.shard:
+                    continue
+                if len(blocks) == 1 and not unary:
+                    pass
+                if ctx.time_up():
+                    ctx.inconclusive = True
+                    complete = False
+                    break
+                children = []
+                for bi, block in enumerate(blocks):
+                    toks = [{"w": "abcdefghij"[i - 1], "p": "NN", "n": i, "e": "--", "lem": "--", "m": "--"} for i in block]
+                    if len(toks) == 1 and not unary:
+                        children.append(toks[0])
+                    else:
+                        children.append({"l": "N%d" % bi, "e": "--", "lem": "--", "m": "--", "c": toks})
+                case = {"sid": 1, "root": {"l": "VROOT", "e": "--", "lem": "--", "m": "--", "c": children}}
+                got = []
+                try:
+                    ctx.run_case(lambda c: got.append(check(c)), case)
+                except Violation as vio:
+                    ctx.record(vio)
+                    continue
+                moved = got[0] if got else 0
+                ctx.count(nontrivial=moved > 0, by_construction=True, classes=["partitions:n=%d" % n, "partitions:moved=%d" % min(moved, 3)])
+                if moved >= 3 and n >= 7:
+                    ctx.sample({"blocks": blocks, "singletons_as_unary_nodes": unary, "reattached": moved}, cap=1)
+    if complete:
+        ctx.exhaustive = "all set partitions of 2..%d tokens into flat root children, singletons as tokens and as unary nodes" % top
+
+
+UNITS = [Unit("root_attach_vs_reference", gen, check, shards=(4, 16)),
+         Unit("partitions_enum", gen_partitions, check, shards=(4, 16)),
+         Unit("scattered_root_children", gen_scattered, check, shards=(4, 16))]
 
 
 from vlib import clidiff
